@@ -200,6 +200,7 @@ def scenario(w):
             other['extrema_opts/mag_pad_opts'] = {'mode': 'minimum'}
             w.probe('decoy_config_used')
 
+    phases = [(0, supplied)]       # (first stage-record index, options in force from there on)
     desc = {'variant': vname, 'route': route, 'signal': sdesc, 'options': _norm(opts), 'fixed': _norm(fixed), 'pool': dict(cfg)}
     w.sample = desc
     w.log('call', variant=vname, route=route, options=_norm(opts), fixed=_norm(fixed))
@@ -226,7 +227,27 @@ def scenario(w):
         else:
             # the same option objects are used for a second call in a third of the runs: an option consumed or
             # rewritten in place by the first call would be missing from the second
-            for rep in range(2 if ch.flag('repeat_call', 1, 3) else 1):
+            nrep = 2 if ch.flag('repeat_call', 1, 3) else 1
+            for rep in range(nrep):
+                if rep == 1 and ch.flag('edit_in_place_between_calls', 1, 2):
+                    # the SAME option objects are edited in place between the two calls; the second call must run
+                    # with the new values everywhere (a pool, partial or cache kept from the first call must not
+                    # pin the old ones)
+                    opts2 = draw_options(ch)
+                    if route == 'kwargs':
+                        for g in opts2:
+                            if g in call_kw and isinstance(call_kw[g], dict):
+                                call_kw[g].clear()
+                                call_kw[g].update(_copy(opts2[g]))
+                        supplied2 = {g: _norm(call_kw[g]) for g in GROUPS if g in call_kw}
+                    else:
+                        for g in opts2:
+                            for k, v in opts2[g].items():
+                                conf['%s/%s' % (g, k)] = _copy(v)
+                        supplied2 = {g: _norm(conf[g]) for g in GROUPS}
+                    phases.append((len(w.stage_trace), supplied2))
+                    desc['options_second_call'] = _norm(opts2)
+                    w.probe('edited_in_place_between_calls')
                 if route == 'kwargs':
                     getattr(S, target)(x.copy(), **call_kw)
                 elif route == 'config':
@@ -254,6 +275,7 @@ def scenario(w):
         st = rec['stage']
         if st not in seen:
             continue
+        supplied = _phase_for(phases, rec['id'])
         anc = _ancestors(trace, rec)
         anc_names = [a['stage'] for a in anc]
         if st != 'get_next_imf' and 'get_next_imf' not in anc_names:
@@ -342,8 +364,8 @@ def scenario(w):
                         break
 
     # ---- inside the stages: the routines a stage calls are the ones its (supplied) options select ----------
-    nviol += _check_effect(w, trace, supplied, vname)
-    if not nviol and 'imf_opts' in supplied:
+    nviol += _check_effect(w, trace, phases, vname)
+    if not nviol and any('imf_opts' in ph[1] for ph in phases):
         nviol += _check_extraction(w, trace, vname)
 
     if in_worker:
@@ -371,12 +393,17 @@ INTERP_FAMILY = {'splrep': ('splrep', 'splev'), 'pchip': ('pchip', 'PchipInterpo
                  'mono_pchip': ('pchip', 'PchipInterpolator')}
 
 
-def _check_effect(w, trace, supplied, vname):
+def _phase_for(phases, rec_id):
+    cur = phases[0][1]
+    for start, sup in phases:
+        if rec_id >= start:
+            cur = sup
+    return cur
+
+
+def _check_effect(w, trace, phases, vname):
     """Consistency between the options a stage was entered with and the routines it then calls.  Sound under
     inlining refactors: nothing is required to be called, but what is called must be what the options select."""
-    sup_imf = supplied.get('imf_opts') or {}
-    sup_env = supplied.get('envelope_opts') or {}
-    sup_ext = supplied.get('extrema_opts') or {}
     lib_by_parent = {}
     for c in w.lib_calls:
         lib_by_parent.setdefault(c['parent'], []).append(c)
@@ -394,6 +421,10 @@ def _check_effect(w, trace, supplied, vname):
         st, b = rec['stage'], rec['bound']
         if b is None or st not in ('get_next_imf', 'interp_envelope', 'get_padded_extrema'):
             continue
+        supplied = _phase_for(phases, rec['id'])
+        sup_imf = supplied.get('imf_opts') or {}
+        sup_env = supplied.get('envelope_opts') or {}
+        sup_ext = supplied.get('extrema_opts') or {}
         names = [a['stage'] for a in _ancestors(trace, rec)]
         if st != 'get_next_imf' and 'get_next_imf' not in names:
             continue
